@@ -268,12 +268,18 @@ def protected_state(sb):
     return out
 
 
+_LOSER_HANGS = [False]   # a losing process that never exits is reported once; no further 240 s waits in this check run
+
+
 def loser_whole_run(chk, sseed):
     """a real second process (`main()` on the same configuration) is started while the in-process holder is in the middle of
     a real update run - at random mutations and inside the publish window - and must exit non-zero having changed nothing
     under skel, mirror and the clean scripts; the holder must then finish as if nothing had happened"""
     from core import vloop
     from e2e import common, run_e2e, runner
+    if _LOSER_HANGS[0]:
+        chk.count("loser:skipped(an earlier losing process never exited)")
+        return
     rng = random.Random(sseed)
     autoclean = rng.random() < 0.6
     w = common.World(rng, rng.randint(1, 2), settings={"_autoclean": "1" if autoclean else "0"})
@@ -299,7 +305,7 @@ def loser_whole_run(chk, sseed):
         def on_fs(idx, op, paths):
             rel = os.path.relpath(paths[0], w.sb.base)
             in_window = ".apt_mirror_" in rel and window[0] > 0 and rng.random() < 0.2
-            if idx not in points and not in_window:
+            if (idx not in points and not in_window) or _LOSER_HANGS[0]:
                 return
             if in_window:
                 window[0] -= 1
@@ -307,6 +313,7 @@ def loser_whole_run(chk, sseed):
             try:
                 r = subprocess.run([sys.executable, "-c", code], capture_output=True, text=True, timeout=240)
             except subprocess.TimeoutExpired:
+                _LOSER_HANGS[0] = True
                 chk.violation("loser-does-not-exit", dict(replay, at=[idx, op, rel]), "a second process started while the first is inside is still running after 240 s")
                 return
             after = protected_state(w.sb)
